@@ -743,7 +743,9 @@ pub fn execute(plan: &Plan, ctx: &mut Ctx) {
 
 fn pick_in(rng: &mut Rng, ty: Ty, upto: usize, specs: &[NodeSpec], leaf_bias: f64) -> String {
     // earlier node of the right type, or a leaf
-    let cands: Vec<usize> = (0..upto).filter(|&i| out_ty(&specs[i].kind) == ty).collect();
+    // unit-changing quantity nodes are sinks: nothing downstream may add them to something else
+    let sink = |k: &str| matches!(k, "prod.q" | "prod2.q" | "quot.q" | "n2v.q");
+    let cands: Vec<usize> = (0..upto).filter(|&i| out_ty(&specs[i].kind) == ty && !sink(&specs[i].kind)).collect();
     if !cands.is_empty() && !rng.chance(leaf_bias) {
         return format!("n{}", rng.pick(&cands));
     }
@@ -754,14 +756,26 @@ fn pick_in(rng: &mut Rng, ty: Ty, upto: usize, specs: &[NodeSpec], leaf_bias: f6
     }
 }
 
+/// leaf-only quantity input (any of the three leaves, including the dimensionless one)
+fn pick_q_leaf(rng: &mut Rng) -> String {
+    format!("q{}", rng.below(NQ as u64))
+}
+
 const KINDS_F: [&str; 14] = ["sum.f", "prod.f", "latest.f", "sum2.f", "prod2.f", "diff.f", "quot.f", "exp.f", "if.f", "ifelse.f", "expirer.f", "n2e.f", "n2v.f", "sum.f"];
 const KINDS_B: [&str; 7] = ["and", "or", "not", "latest.b", "n2v.b", "if.b", "expirer.b"];
-const KINDS_Q: [&str; 8] = ["sum.q", "sum2.q", "diff.q", "latest.q", "if.q", "n2e.q", "expirer.q", "ifelse.q"];
+const KINDS_Q: [&str; 12] = ["sum.q", "sum2.q", "diff.q", "latest.q", "if.q", "n2e.q", "expirer.q", "ifelse.q", "prod.q", "prod2.q", "quot.q", "n2v.q"];
 
 fn random_node(rng: &mut Rng, kind: &str, idx: usize, specs: &[NodeSpec], leaf_bias: f64, max_arity: usize) -> NodeSpec {
     let ty = out_ty(kind);
     let b = base(kind);
     let mut ins = Vec::new();
+    if matches!(kind, "prod.q" | "prod2.q" | "quot.q") {
+        let n = if b == "prod" { rng.range(1, max_arity.min(4) as i64) } else { 2 };
+        for _ in 0..n {
+            ins.push(pick_q_leaf(rng));
+        }
+        return NodeSpec { kind: kind.to_string(), ins, clock: 0, param: 0 };
+    }
     match b {
         "sum" | "prod" | "latest" => {
             let n = rng.range(1, max_arity as i64);
